@@ -10,10 +10,11 @@ if [ -n "$(git status --porcelain)" ]; then echo "/repo is dirty; refusing"; exi
 restore() { git -C /repo checkout -q -- . ; git -C /repo clean -fdq; }
 trap restore EXIT
 git apply "$PATCH" || { echo "patch does not apply"; exit 2; }
-cd /verif
+cd "${VERIF_DIR:-/verif}"
 OUT=$(mktemp -d /tmp/trymut.XXXXXX)
+./check build > $OUT/build.log 2>&1 || { echo "BUILD-FAILED (harness does not compile against the changed tree)"; tail -5 $OUT/build.log; exit 2; }
 for c in $CHECKS; do
-  ./check $c $TIER > $OUT/$c.log 2>&1; rc=$?
+  bin/vcheck -verif "$PWD" -prop $c -tier $TIER > $OUT/$c.log 2>&1; rc=$?
   sigs=$(grep -o "sig=[^ ]*" $OUT/$c.log | sort -u | head -4 | tr '\n' ' ')
   case $rc in
     0) echo "$c silent";;
